@@ -34,7 +34,7 @@ SPEC = dict(
          'with the same format and arguments. During a large case the public a_alloc hook points at a wrapper of the default a_alloc_ that fills every grown region with 0xA5 '
          '(fresh pages are zero and ASan pattern-fills only 4096 bytes, so a missing terminator at a large offset would otherwise pass by luck).',
     exhaustive={},
-    require=['append-of-own-content', 'cmp-with-own-storage-as-other-operand', 'huge-str-setm', 'huge-str-setm_', 'huge-str-setn', 'huge-str-catf-width', 'state-compared-with-model', 'terminator-after-content-inside-capacity', 'formatted-append-equals-libc-formatter',
+    require=['append-of-own-content', 'append-of-own-c-string-tail', 'cmp-with-own-storage-as-other-operand', 'trim-set-is-window-of-own-content', 'trim-set-is-window-of-own-content-both-ends-removed', 'trim-set-window-reaches-past-the-new-end', 'getn-into-window-of-own-content', 'huge-str-setm', 'huge-str-setm_', 'huge-str-setn', 'huge-str-catf-width', 'state-compared-with-model', 'terminator-after-content-inside-capacity', 'formatted-append-equals-libc-formatter',
              'utf_catc-appends-encoding-plus-nul', 'getc-returns-last-byte', 'getn-returns-tail-bytes',
              'trim-removes-exactly-the-set-members-at-the-ends', 'setn-bounds', 'setm-capacity', 'swap',
              'exit-hands-over-terminated-content', 'cmp-orders-like-bytewise-lexicographic-then-length', 'accessors', 'ctor-dtor-on-caller-storage',
